@@ -155,6 +155,9 @@ fn universe(url: &str, locs: &[String]) -> Vec<String> {
 }
 
 pub fn run(ctx: &Ctx) {
+    // the watchdog's clock also covers the harness's own oracle work (reference models, DOM enumeration);
+    // the limit is generous so that machine load cannot turn a slow case into a verdict
+    ctx.hang_limit_s.store(300, std::sync::atomic::Ordering::Relaxed);
     // decoys on the real disk, and the process working directory inside them
     let cwd = ctx.root.join("target").join("c13-cwd");
     let _ = std::fs::create_dir_all(cwd.join("foo"));
